@@ -4,6 +4,9 @@ wt, name, prop = sys.argv[1:4]
 needs = " ".join(sys.argv[4:])
 src = os.path.join(wt, "SEED", name)
 dst = os.path.join("/verif/seeded", name)
+missing = [f for f in ("patch.diff", "demo.py", "notes.md") if not os.path.isfile(os.path.join(src, f))]
+if missing:
+    sys.exit("seedimport: %s lacks %s - nothing imported" % (src, missing))
 os.makedirs(dst, exist_ok=True)
 for f in ("patch.diff", "demo.py", "notes.md"):
     shutil.copy(os.path.join(src, f), os.path.join(dst, f))
